@@ -108,6 +108,7 @@ class Facts:
         if desugar:
             if not os.environ.get("VERIF_NO_LOCAL_CLOSURES"):
                 _inline_local_closure_calls(d, self.spliced)
+            _desugar_bool_then_some(d)
             _desugar_combinators(d, self.spliced)
         self.threaded = [f["id"] for f in d["functions"] if _thread_known_variants(f)]
         for f in d["functions"]:
@@ -1364,6 +1365,36 @@ def _inline_local_closure_calls(d, record, max_blocks=1500):
         gone = done - used
         if gone:
             d["functions"] = [f for f in d["functions"] if f["id"] not in gone]
+
+
+def _desugar_bool_then_some(d):
+    """`cond.then_some(v)` is `if cond { Some(v) } else { None }` (the argument is evaluated either way, as in the source): the
+    call becomes a switch on the bool with the two Option aggregates in its arms, joined at the call's continuation, so that
+    `(len <= MAX).then_some(token).ok_or_else(err)` and `if len > MAX { return Err(err()) } Ok(token)` are one program in the
+    normalised view."""
+    for f in d["functions"]:
+        i = 0
+        while i < len(f["blocks"]) and len(f["blocks"]) < 4000:
+            blk = f["blocks"][i]
+            i += 1
+            t = blk["term"]
+            if t["t"] != "call" or blk.get("cleanup") or not re.search(r"^(core|std)::bool::<impl bool>::then_some$", t.get("callee") or "") or t.get("to") is None \
+                    or len(t["args"]) != 2 or t["dest"]["p"]:
+                continue
+            line = t.get("line", 0)
+            cond, val, dest, ret_to = t["args"][0], t["args"][1], t["dest"], t["to"]
+
+            def nb():
+                b = {"bb": len(f["blocks"]), "cleanup": False, "st": [], "term": None, "dsg": t["callee"]}
+                f["blocks"].append(b)
+                return b
+            yes, no = nb(), nb()
+            yes["st"].append({"s": "assign", "pl": dest, "rv": {"rv": "agg", "agg": "adt", "adt": OPT, "variant": "Some", "fields": ["0"], "ops": [val]}, "line": line, "dsg": t["callee"]})
+            yes["term"] = {"t": "goto", "to": ret_to, "line": line, "exp": False}
+            no["st"].append({"s": "assign", "pl": dest, "rv": {"rv": "agg", "agg": "adt", "adt": OPT, "variant": "None", "fields": [], "ops": []}, "line": line, "dsg": t["callee"]})
+            no["term"] = {"t": "goto", "to": ret_to, "line": line, "exp": False}
+            blk["term"] = {"t": "switch", "discr": cond, "targets": [[0, no["bb"]]], "otherwise": yes["bb"], "line": line, "exp": t.get("exp", False), "dsg": t["callee"]}
+            f.setdefault("joins", []).append([dest["l"], ret_to])
 
 
 def _desugar_combinators(d, record, max_passes=6):
